@@ -7,4 +7,15 @@ def expectedC05 : List (String × String) := [("stats.invSqrt2Pi", "0.3989422804
 /-- the constants and literals the C05 model mirrors are still what the source says -/
 theorem facts_C05 : holdsAll expectedC05 = true := by decide
 
+
+/-- State that outlives a call, as extracted from the source on this run: the package-level
+variables of the packages this property's code lives in, the functions (other than `init`) that
+assign to them or call methods on them, and the fields of the property's struct types. The model is
+a pure function of the arguments and of these fields; a new variable, writer or field is state the
+model does not know of. -/
+def stateC05 : List (String × String) := [("globals:stats", "ErrMismatchedSamples ErrSampleSize ErrSamplesEqual ErrZeroVariance MannWhitneyExactLimit MannWhitneyTiesExactLimit StdNormal _KDEBoundaryMethod_index _KDEKernel_index _LocationHypothesis_index inf nan quantileCIApproxThreshold"), ("globals:mathx", "nan smallFact"), ("globalwrites:stats", "MannWhitneyUTest:StdNormal.CDF"), ("globalwrites:mathx", ""), ("fields:stats.NormalDist", "Mu:float64 Sigma:float64"), ("fields:stats.TDist", "V:float64"), ("fields:stats.DeltaDist", "T:float64")]
+
+/-- the source has exactly the package-level variables, writers and struct fields the model accounts for -/
+theorem state_C05 : holdsAll stateC05 = true := by decide +kernel
+
 end MV.Facts
